@@ -245,6 +245,7 @@ func runC01(c *Ctx) {
 		out := c.Run("c01.t1", hx(challenge), hx(nonce), b2s(fixed), hx(kid), hx(blinded), hx(prf), hx(keyseed), hx(blind))
 		c.Count("t1:" + map[bool]string{true: "fixed-blind", false: "random-blind"}[fixed])
 		c.Direct(strings.HasPrefix(out, "ok ") && strings.HasSuffix(out, "verify=1"), "honest type-1 issuance over the wire failed", map[string]any{"challenge_len": len(challenge), "nonce": hx(nonce), "keyseed": string(keyseed), "impl": out})
+		c.Direct(tokField(out) == "tok="+hxv(append(append([]byte{}, input...), prf...)), "type-1 token is not type‖nonce‖SHA-256(challenge)‖key id‖VOPRF output", map[string]any{"challenge": hx(challenge), "nonce": hx(nonce), "keyseed": string(keyseed), "impl": out})
 		// ---- type 2 ----
 		ki := i % 4
 		rk := rsaKey(ki)
@@ -262,6 +263,7 @@ func runC01(c *Ctx) {
 		out = c.Run("c01.t2", hx(challenge), hx(nonce), b2s(fixed), hx(kid2), hx(bm), hx(sig), strconv.Itoa(ki), hx(b2), hx(salt))
 		c.Count("t2:" + map[bool]string{true: "fixed-blind", false: "random-blind"}[fixed])
 		c.Direct(strings.HasPrefix(out, "ok ") && strings.HasSuffix(out, "verify=1"), "honest type-2 issuance over the wire failed", map[string]any{"challenge_len": len(challenge), "impl": out})
+		c.Direct(strings.HasPrefix(tokField(out), "tok="+hxv(input2)), "type-2 token does not start with type‖nonce‖SHA-256(challenge)‖key id", map[string]any{"challenge": hx(challenge), "nonce": hx(nonce), "impl": out})
 		// ---- type 5 ----
 		nTok := 1 + i%c.Pick(8, 64)
 		if i%5 != 0 {
@@ -294,6 +296,11 @@ func runC01(c *Ctx) {
 		out = c.Run("c01.t5", hx(challenge), hxList(nonces), b2s(fixed), hx(kid5), hxList(blindeds), hxList(prfs), hx(keyseed), hxList(blinds))
 		c.Count(fmt.Sprintf("t5:n=%d", nTok))
 		c.Direct(strings.HasPrefix(out, "ok ") && strings.HasSuffix(out, "verify=1"), "honest type-5 issuance over the wire failed", map[string]any{"n": nTok, "impl": out})
+		var want5 [][]byte
+		for k := range inputs {
+			want5 = append(want5, append(append([]byte{}, inputs[k]...), prfs[k]...))
+		}
+		c.Direct(tokField(out) == "toks="+hxList(want5), "type-5 tokens are not type‖nonce_i‖SHA-256(challenge)‖key id‖VOPRF output, in nonce order", map[string]any{"n": nTok, "challenge": hx(challenge), "nonces": hxList(nonces), "impl": out})
 		// ---- type 3 ----
 		if i%2 == 0 {
 			origin := r.Bytes([]int{1, 14, 31, 32, 33, 70, 200}[i/2%7])
@@ -305,6 +312,7 @@ func runC01(c *Ctx) {
 			out = c.Run("c01.t3", hx(challenge), hx(nonce), hx(origin), hx(kid3), strconv.Itoa(i%2), hx(r.Bytes(48)), hx(r.Bytes(48)))
 			c.Count("t3")
 			c.Direct(strings.HasPrefix(out, "ok ") && strings.HasSuffix(out, "valid=1"), "honest type-3 issuance over the wire failed", map[string]any{"origin_len": len(origin), "impl": out})
+			c.Direct(strings.Contains(out, "tokpre="+hxv(tokenInputRef(3, nonce, challenge, kid3))+" authlen=256"), "type-3 token is not type‖nonce‖SHA-256(challenge)‖key id‖256-byte authenticator", map[string]any{"impl": out})
 		}
 	}
 }
